@@ -1,15 +1,15 @@
 SPECIFICATION Spec
 CONSTANTS
-  Fact = {"A", "B"}
-  Signer = {1, 2}
-  MaxAdd = 2
-  MaxReSet = 0
-  MaxCalls = 3
-  Limits = {5}
-  MaxRej = 2
+  Fact = {"A", "B", "C"}
+  Signer = {1, 2, 3}
+  MaxAdd = 6
+  MaxReSet = 1
+  MaxCalls = 6
+  Limits = {1, 2, 3, 6, 12}
+  MaxRej = 3
   Impl = "fixed"
-  Sym = TRUE
-  NCallers = 2
+  Sym = FALSE
+  NCallers = 3
   Removal = "skip"
   Emit = "terminal"
 INVARIANTS TypeOK Gone R0ok R1ok R2ok R3ok R4ok R6ok
